@@ -40,6 +40,7 @@ func NewRpcMultiplexer(rw types.RpcReadWriter) *RpcMultiplexer {
 	}
 
 	rm.ctx, rm.cancel = context.WithCancel(context.Background())
+	vEmit("mux.new", rm, 0, 0, "")
 
 	go func() {
 		err := rm.readLoop()
